@@ -13,6 +13,7 @@ import (
 
 func (fr *Frame) exec(in ssa.Instruction, st *State) error {
 	c := fr.c
+	fr.markEscaped(in)
 	switch x := in.(type) {
 	case *ssa.DebugRef:
 		return nil
@@ -20,9 +21,8 @@ func (fr *Frame) exec(in ssa.Instruction, st *State) error {
 		elem := x.Type().(*types.Pointer).Elem()
 		if fr.heapCell[x] {
 			r := c.newRef("new_" + x.Comment)
-			if privateAlloc(x) {
-				c.privateRefs = append(c.privateRefs, r)
-			}
+			c.privateRefs = append(c.privateRefs, privRef{r, x, fr})
+			fr.markEscaped(x)
 			l := c.ptrLVal(r, elem)
 			fr.write(l, st, c.zero(elem))
 			fr.env[x] = &Val{T: []Term{r}}
@@ -316,9 +316,15 @@ func describeOrigin(v ssa.Value) string {
 }
 
 func (fr *Frame) knownNonNil(v ssa.Value) bool {
-	switch v.(type) {
+	switch x := v.(type) {
 	case *ssa.Alloc, *ssa.FieldAddr, *ssa.IndexAddr, *ssa.Global, *ssa.MakeSlice, *ssa.MakeMap:
 		return true
+	case *ssa.UnOp:
+		// a package-level pointer variable that is only assigned by its initialiser
+		if g, ok := x.X.(*ssa.Global); ok && x.Op == token.MUL && !fr.c.v.globalAssigned[g] {
+			fr.c.assumeNote("package-level pointer variables that are never assigned outside init are non-nil")
+			return true
+		}
 	}
 	return false
 }
